@@ -7,6 +7,7 @@ From PV Require Import lib.Sx lib.Str lib.Result lib.Dec.
 From PV Require Import model.Base spec.SpecBase model.TimeWrite spec.SpecTimeW proofs.TimeWriteFacts.
 From PV Require model.Langs spec.SpecTimeSamiDoc proofs.TimeSamiDocFacts proofs.TimeFloatFacts.
 From PV Require model.DfxpWriteDoc model.XmlRead spec.SpecXmlDocT proofs.DfxpWriteDocFacts.
+From PV Require model.SamiText model.SamiWriteDoc spec.SpecSamiText model.Chain spec.SpecChain proofs.ChainFacts proofs.ChainDocFacts proofs.SamiWriteDocFacts.
 Import ListNotations.
 Open Scope Z_scope.
 
@@ -334,3 +335,65 @@ Example C02_ex_dfxp_document :
   = Ok [(lit "en-US", [(1000000, 2500000); (3600000000, 3600040000)])].
 Proof. vm_compute. repeat split; reflexivity. Qed.
 End DfxpDocument.
+
+(* ---- round 4: the SAMI DOCUMENT at string level (C02 o C01 on whole documents) -------------------------------------
+   SamiWriteDoc.sami_write_doc lang cs = head ++ sami_body_text lang cs = the text SAMIWriter prints for one language of
+   captions given as text lines: one <sync start=ms> per event of the sync rule (TimeWrite.sami_write, C02_sami_sync_rule),
+   compared with the real writer character by character on every run (request 208).  SamiText.sami_read_string = the
+   string-level model of SAMIReader from <body> on (C01_sami_string_exact), given the stylesheet's class -> lang table. *)
+Module SamiDocumentText.
+Import model.SamiText model.SamiWriteDoc model.Chain spec.SpecChain proofs.ChainFacts proofs.ChainDocFacts proofs.SamiWriteDocFacts.
+Open Scope Z_scope.
+
+(* for EVERY timeline (sorted, non-overlapping cues, each at least 1 ms long, below 24 h - 4 s) with visible text, in any
+   language name: reading the written text back yields one caption per caption, in order, under that language, every start
+   and every non-final end truncated to the millisecond, the final cue lasting four seconds (its end is not written) *)
+Theorem C02_sami_document_string : forall default lang cs lo, cs <> [] -> 0 <= lo ->
+  dom_u 1000 lo (times_of_caps cs) -> lines_visible cs = true ->
+  sami_read_string default (sstyles lang) (sami_body_text lang cs)
+  = Ok [(lang, set_last_end (map (pi_pt 1000) (times_of_caps cs)))].
+Proof. exact sami_document_string. Qed.
+Print Assumptions C02_sami_document_string.
+
+Example C02_ex_sami_document :
+  let cs := [(1000999, 2500000, [lit "hello"; lit "a & <b>"]); (2500000, 3600040999, [lit "42"]); (3600050000, 3600060000, [lit "x"])] in
+  dom_u 1000 0 (times_of_caps cs) /\ lines_visible cs = true /\
+  sami_write_doc (lit "en-US") cs = lit "<sami>
+ <head>
+  <style type=""text/css"">
+   <!--
+    .en-US {
+     lang: en-US;
+    }
+   -->
+  </style>
+ </head>
+ <body>
+  <sync start=""1000"">
+   <p class=""en-US"">
+    hello<br/>
+    a &amp; &lt;b&gt;
+   </p>
+  </sync>
+  <sync start=""2500"">
+   <p class=""en-US"">
+    42
+   </p>
+  </sync>
+  <sync start=""3600040"">
+   <p class=""en-US"">
+    &nbsp;
+   </p>
+  </sync>
+  <sync start=""3600050"">
+   <p class=""en-US"">
+    x
+   </p>
+  </sync>
+ </body>
+</sami>
+" /\
+  sami_read_string (lit "und") (sstyles (lit "en-US")) (sami_body_text (lit "en-US") cs)
+  = Ok [(lit "en-US", [(1000000, 2500000); (2500000, 3600040000); (3600050000, 3604050000)])].
+Proof. vm_compute. repeat split; try reflexivity; try discriminate. Qed.
+End SamiDocumentText.
